@@ -454,7 +454,11 @@ theorem textf_formats_exactly (tmpsize : Nat) (h : 0 < tmpsize) (s : List UInt8)
 example : vtextf 4 (List.replicate 300 65) = some (List.replicate 300 65, 512) ∧
     vtextfWith ⟨2, 0⟩ 4 [65, 66, 67, 68] = some ([65, 66, 67, 0], 4) := by decide +kernel
 
-/-! ### the span query -/
+/-! ### the span query
+
+  `tickit_renderbuffer_get_span` is an observation API that no clause of C03 speaks about: the statements below are a
+  record of how its answer relates to the abstract content (they are not part of the property, the check gives no
+  SPEC verdict on the answers, and the repair is a note that is not applied). -/
 
 /-- The specification of `tickit_renderbuffer_get_span` for a reading `cfg` of its two critical statements: on a
     well-formed buffer the query for user coordinates `(l, c)` fails (`-1`, nothing stored) exactly for cells outside
@@ -473,7 +477,7 @@ def GetSpanSpec (cfg : SpanCfg) : Prop :=
     else getSpanQ cfg rb l c info infoPen buf len = { ret := -1 }
 
 /-- **`get_span` answers from the abstract content** — for the repaired text (fixes/C03_get_span.patch:
-    `return retlen;`, column limit `offs + cols`). -/
+    `return retlen;`, column limit `offs + cols`; a note, not applied). -/
 theorem get_span_spec : GetSpanSpec ⟨true, true⟩ :=
   fun _ wf l c info infoPen buf len => getSpanQ_abs wf l c info infoPen buf len
 
@@ -484,8 +488,8 @@ theorem get_span_spec_tree (h : spanCfg = ⟨true, true⟩) : GetSpanSpec spanCf
 /-- A text run after an overwrite: `abcdef`, then `A` over column 2. -/
 def spanExample : RB := RB.run (RB.new 1 6 0 0) [.textAt 0 0 [0x61, 0x62, 0x63, 0x64, 0x65, 0x66], .charAt 0 2 0x41]
 
-/-- **The text as found violates the specification** (known findings `get_span_returns_buflen`,
-    `get_span_text_limit`): with `return len;` the query at column 0 of `ab│A│def` with a 16-byte buffer returns 16,
+/-- **The text as found does not satisfy that statement** (recorded, not acted upon; correspondence regressions
+    corpus/C03/get_span_returns_buflen.ops, get_span_text_limit.ops): with `return len;` the query at column 0 of `ab│A│def` with a 16-byte buffer returns 16,
     not the 2 bytes of `ab`; with the column limit `span->cols` the piece `def` (3 columns from column 3 of its
     string) yields an empty text.  Either statement alone breaks it. -/
 theorem get_span_found_counterexample :
